@@ -342,6 +342,9 @@ benign("b-parser-fold-to-for",
 RF = os.path.join(os.path.dirname(os.path.dirname(os.path.abspath(__file__))), "refactors")
 for d in sorted(os.listdir(RF)):
     if os.path.exists(os.path.join(RF, d, "patch.diff")):
+        mp = os.path.join(RF, d, "meta.json")
+        if os.path.exists(mp) and json.load(open(mp)).get("known_limit"):
+            continue          # representation changes the extractors do not follow (DESIGN.md section 11.3): reported, known
         C.append({"id": "rf-" + d, "kind": "benign", "patch": "refactors/%s/patch.diff" % d, "edits": []})
 
 
@@ -378,6 +381,24 @@ rmut("rf-tok-3+state-not-reset", "tok-3", "C08", "C08.R", (TK, "    let mut stat
 rmut("rf-tok-1+final-end-off", "tok-1", "C07", "C07.R", (TK, "            end: current,\n            byte_end: source.len(),", "            end: current,\n            byte_end: source.len() - 1,"))
 rmut("rf-par-4+closing-by-prefix", "par-4", "C10", "C10.R", (PA, ".any(|parent_el| parent_el.name == pair_name)", ".any(|parent_el| parent_el.name.starts_with(pair_name))"))
 rmut("rf-par-4+mismatch-accepted", "par-4", "C10", "C10.R", (PA, "Some((end_token, end_el)) if el.name == end_el.name.trim_start_matches(\"/\") => {", "Some((end_token, end_el)) if el.name.len() == end_el.name.trim_start_matches(\"/\").len() => {"))
+
+# round 2 of the refactorings
+rmut("rf-fmt-r2-2+found-off-by-one", "fmt-r2-2", "C02", "C02.R", (IR, "b'\\n' => return (cursor + 1, byte_pos),", "b'\\n' => return (cursor, byte_pos),"))
+rmut("rf-fmt-r2-2+skips-anything", "fmt-r2-2", "C02", "C02.R", (IR, "                _ => break,\n", "                _ => {}\n"))
+rmut("rf-fmt-r2-4+merges-neighbours", "fmt-r2-4", "C02", "C02.R3b", (FM, "Some(last) if last.end >= range.start =>", "Some(last) if last.end + 1 >= range.start =>"))
+rmut("rf-lst-r2-3+found-plus-one", "lst-r2-3", "C01", "C01.S", (LB, "CheckResult::Found => ControlFlow::Break(Some(cursor)),", "CheckResult::Found => ControlFlow::Break(Some(cursor + 1)),"))
+rmut("rf-lst-r2-3+never-pauses", "lst-r2-3", "C02", "C02.R4", (LB, "            if pause_on_char {\n                ControlFlow::Break(None)\n            } else {\n                ControlFlow::Continue(())\n            }", "            ControlFlow::Continue(())"))
+rmut("rf-rem-r2-2+rebase-dropped", "rem-r2-2", "C12", "C12.R4", (RM, ".map(|p| p - start_cursor + current + 1);", ".map(|p| p + current + 1);"))
+rmut("rf-rem-r2-2+lower-guard-dropped", "rem-r2-2", "C01", "C01.OB", (RM, ".filter(|p| start_cursor <= *p && *p < end_cursor)", ".filter(|p| *p < end_cursor)"))
+rmut("rf-rem-r2-3+rebase-in-helper", "rem-r2-3", "C12", "C12.R4", (RM, "Some(p - kept.start + offset)", "Some(p + offset)"))
+rmut("rf-rem-r2-3+forward-cut", "rem-r2-3", "C02", "C02.R2", (RM, "for (marker, _) in markers.iter().rev() {", "for (marker, _) in markers.iter() {"))
+rmut("rf-eva-r2-2+valueless-ready", "eva-r2-2", "C06", "C06.R1", (MK, "                None => false,", "                None => true,"))
+rmut("rf-eva-r2-2+prefix-attr", "eva-r2-2", "C06", "C06.R", (MK, 'if attr.name != "name" {', 'if !attr.name.starts_with("name") {'))
+rmut("rf-cli-r2-2+skips-first-line", "cli-r2-2", "C20", "C20.R2", (CLI, "    for line in reader.lines() {", "    for line in reader.lines().skip(1) {"))
+rmut("rf-cli-r2-4+flag-names-dropped", "cli-r2-4", "C20", "C20.R2", (CLI, "    marker_removal_tags.extend(args.removal_marker_target_name);\n", ""))
+rmut("rf-par-r2-2+eof-keeps-looping", "par-r2-2", "C10", "C10.R", (PA, "            State::Closed((t, el)) => return (cursor, Some((t, el))),", "            State::Closed((t, el)) => { let _ = (t, el); }"))
+rmut("rf-tok-r2-1+renamed-counter-by-two", "tok-r2-1", "C07", "C07.R", (TK, "                char_pos + 1,", "                char_pos + 2,"))
+rmut("rf-lst-r2-1+renamed-scanner-steps-two", "lst-r2-1", "C02", "C02.R4", (LB, "        pos -= 1;\n", "        pos -= 2;\n"))
 
 with open(os.path.join(os.path.dirname(os.path.abspath(__file__)), "mutants.json"), "w") as f:
     json.dump(C, f, indent=1)
